@@ -162,9 +162,9 @@ theorem C05_sys_frontends_xarray (periodOf : Period → Int → Int) (tab : Tabl
   have : xarrayMask = specMask := by funext w ts; exact C05_xarray_mask w ts
   rw [this]
 
-/-- PandasStream: rows carry labels; with unique labels the run is the specified one. -/
+/-- PandasStream: rows carry labels; whatever they are (repeated ones included) the run is the specified one. -/
 theorem C05_sys_frontends_pandas (periodOf : Period → Int → Int) (tab : Table) (cs : List SysCtx)
-    (labels : List Nat) (hl : labels.length = tab.t.length) (hnd : labels.Nodup) :
+    (labels : List Nat) (hl : labels.length = tab.t.length) :
     runStream periodOf (fun w ts => pandasMask w (labels.zip ts)) tab cs
       = runStream periodOf specMask tab cs := by
   unfold runStream
@@ -173,7 +173,6 @@ theorem C05_sys_frontends_pandas (periodOf : Period → Int → Int) (tab : Tabl
   unfold runCtx
   have hm : pandasMask c.window (labels.zip tab.t) = specMask c.window tab.t := by
     have h := C05_pandas_mask c.window (labels.zip tab.t)
-      (by rw [List.map_fst_zip (by omega)]; exact hnd)
     rw [h, List.map_snd_zip (by omega)]
   simp only [hm]
 
